@@ -78,6 +78,44 @@ def bundled_checks(ctx):
     return bad, n
 
 
+def bundled_batched(ctx):
+    """the library's own order objects: batched order.dominates (N,D)x(N,D), (N,D)x(D,), (D,)x(N,D) and
+    single-vector calls against the facet test row by row (pairs closer than 1e-9 to a facet are skipped)"""
+    import impl
+    rng = ctx.rng
+    bad, n = [], 0
+    for name, order in impl.bundled_orders():
+        W = np.asarray(order.ordering_cone.W, dtype=float); D = W.shape[1]
+        Wq = [[Fraction(float(x)) for x in row] for row in W]
+        for _ in range(4 if ctx.quick else 40):
+            N = rng.choice([2, 3, 5])
+            A = [[gen.rand_dyadic(rng, 3, 3) for _ in range(D)] for _ in range(N)]
+            B = [[gen.rand_dyadic(rng, 3, 3) for _ in range(D)] if rng.random() < 0.8 else list(A[i]) for i in range(N)]
+            fa, fb = np.array([gen.fl(a) for a in A]), np.array([gen.fl(b) for b in B])
+            def truth(a, b):
+                vals = [sum(w * (x - y) for w, x, y in zip(row, a, b)) for row in Wq]
+                if any(0 < abs(v) < Fraction(1, 10 ** 9) for v in vals):
+                    return None
+                return all(v >= 0 for v in vals)
+            forms = [("(N,D)x(N,D)", fa, fb, [truth(A[i], B[i]) for i in range(N)]),
+                     ("(N,D)x(D,)", fa, fb[0], [truth(A[i], B[0]) for i in range(N)]),
+                     ("(D,)x(N,D)", fa[0], fb, [truth(A[0], B[i]) for i in range(N)]),
+                     ("(D,)x(D,)", fa[1], fb[1], [truth(A[1], B[1])])]
+            for form, x, y, want in forms:
+                n += 1
+                try:
+                    got = np.asarray(order.dominates(x.copy(), y.copy()))
+                except Exception as e:
+                    bad.append({"signature": "bundled-batched-dominates", "message": f"{name}: dominates {form} raised {type(e).__name__}", "replay": {"order": name, "form": form, "A": fa.tolist(), "B": fb.tolist()}})
+                    continue
+                if got.shape != (len(want),):
+                    bad.append({"signature": "bundled-batched-dominates", "message": f"{name}: dominates {form} returned shape {got.shape}, expected ({len(want)},) — one answer per row", "replay": {"order": name, "form": form, "A": fa.tolist(), "B": fb.tolist()}})
+                    continue
+                if any(w is not None and bool(g) != w for g, w in zip(got, want)):
+                    bad.append({"signature": "bundled-batched-dominates", "message": f"{name}: dominates {form} = {got.tolist()}, the facet inequalities row by row say {want}", "replay": {"order": name, "form": form, "A": fa.tolist(), "B": fb.tolist()}})
+    return bad, n
+
+
 def evaluate(ctx, cases):
     from vopy.order import PolyhedralConeOrder
     lines, impl = [], []
@@ -128,6 +166,8 @@ def run(ctx):
     cases = gen_cases(ctx)
     viol, both = evaluate(ctx, cases)
     bviol, nb = bundled_checks(ctx)
+    bb, nbb = bundled_batched(ctx)
+    bviol += bb
     import props.c12_angles as ang
     aviol, na, asamples = ang.run(ctx)
     distinct = set()
@@ -143,7 +183,7 @@ def run(ctx):
         "rule": "pairs (a,b) on the lattice {-2..2}^m/2 (m=2,3; exhaustive pairs for m=2 in the thorough tier) x named integer cones incl. non-pointed and K>m, plus random integer cones (m<=4,K<=6) with dyadic vectors; dominates / is_inside / batched is_inside compared exactly with the regenerated facet test; bundled matrices compared with the regenerated literals; angle sweeps for the 2-D theta cone, ice-cream cone and beta; non-trivial = a != b",
         "samples": [{"W": W, "a": [str(x) for x in a], "b": [str(x) for x in b]} for cn, W, a, b in cases[:2] + cases[-2:]] + asamples[:2],
         "violations": viol + bviol + aviol,
-        "extra": {"answers": {"dominates_true": both[True], "dominates_false": both[False]}, "bundled_matrix_checks": nb, "angle_checks": na},
+        "extra": {"answers": {"dominates_true": both[True], "dominates_false": both[False]}, "bundled_matrix_checks": nb, "bundled_batched_dominates_calls": nbb, "angle_checks": na},
     }
 
 
@@ -152,6 +192,17 @@ def replay(ctx, data):
     if "W" in r and "a" in r:
         viol, _ = evaluate(ctx, [(r.get("cone", "replay"), r["W"], [Fraction(x) for x in r["a"]], [Fraction(x) for x in r["b"]])])
         return bool(viol), (viol[0]["message"] if viol else "agrees with the facet test")
+    if "order" in r and "form" in r:
+        import impl
+        order = dict(impl.bundled_orders())[r["order"]]
+        A, B = np.array(r["A"]), np.array(r["B"])
+        x, y = {"(N,D)x(N,D)": (A, B), "(N,D)x(D,)": (A, B[0]), "(D,)x(N,D)": (A[0], B), "(D,)x(D,)": (A[1], B[1])}[r["form"]]
+        W = np.asarray(order.ordering_cone.W, dtype=float)
+        rows = np.atleast_2d(np.broadcast_to(x, np.broadcast_shapes(np.shape(x), np.shape(y))) - y)
+        want = [bool((W @ d >= -1e-12).all()) for d in rows]
+        got = np.asarray(order.dominates(x.copy(), y.copy()))
+        bad = got.shape != (len(want),) or [bool(g) for g in got] != want
+        return bad, f"{r['order']} dominates {r['form']} = {got.tolist()}, row-by-row facet test {want}"
     import props.c12_angles as ang
     if "angle" in r:
         return ang.replay(ctx, r)
